@@ -132,7 +132,11 @@ class World:
         if kind == "pkv":
             prov, kid, a, m, s = t[2], int(t[3]), int(t[4]), unhx(t[5]), unhx(t[6])
             key, okid = self.id_to[kid]
-            v = self.oracle.verify(okid, K.ORD_ALG[a], m, s) if okid is not None else False
+            if s == self.PLACEHOLDER:
+                # the model's stand-in for a provider-made signature: valid exactly when this key may sign with this alg
+                v = okid is not None and K.usable(key, K.ORD_ALG[a])
+            else:
+                v = self.oracle.verify(okid, K.ORD_ALG[a], m, s) if okid is not None else False
             if prov == "gnutls" and a == 13:
                 v = False          # the GnuTLS backend documents ES256K as unsupported
             return "oracle pkv %s %s %s %s %s %d" % (t[2], t[3], t[4], t[5], t[6], 1 if v else 0)
@@ -172,7 +176,36 @@ class World:
         else:
             raise RuntimeError("oracle loop did not converge: " + str(needs[:3]))
         self.oracle_lines = oracle_lines
+        # randomised / provider-made signatures: compared through the independent verifier's verdict
+        for i, l in enumerate(do):
+            if " sigby=" in l and eo[i] != "<crash>" and eo[i].startswith("tok="):
+                eo[i] = self.canon_signed(eo[i], l)
         return eo, do, crash
+
+    PLACEHOLDER = b"SIG-OK"
+
+    def canon_signed(self, ex_line, dr_line):
+        sb = dr_line.rsplit(" sigby=", 1)[1]
+        kid, a = (int(x) for x in sb.split(":"))
+        toks = ex_line.split(" ")
+        real = unhx(toks[0][4:])
+        if real is None or real.count(b".") != 2:
+            return ex_line
+        h, p, s = real.split(b".")
+        key, okid = self.id_to.get(kid, (None, None))
+        try:
+            sig = K.b64u_dec(s)
+        except Exception:
+            return ex_line
+        if okid is not None and self.oracle.verify(okid, K.ORD_ALG[a], h + b"." + p, sig):
+            self.oracle_stats["sig-verified"] = self.oracle_stats.get("sig-verified", 0) + 1
+            if a in (7, 8, 9, 13) and sig[:1] == b"\x00":
+                self.oracle_stats["ecdsa-short-r"] = self.oracle_stats.get("ecdsa-short-r", 0) + 1
+            if a in (7, 8, 9, 13) and sig[len(sig) // 2:len(sig) // 2 + 1] == b"\x00":
+                self.oracle_stats["ecdsa-short-s"] = self.oracle_stats.get("ecdsa-short-s", 0) + 1
+            toks[0] = "tok=" + hx(h + b"." + p + b"." + K.b64u(self.PLACEHOLDER).encode())
+            return " ".join(toks) + " sigby=" + sb
+        return ex_line
 
 
 # ---- token helpers (independent construction) ----
